@@ -71,6 +71,33 @@ def gen_history(rng, n_ops, universe, deferred=False, reopens=True):
     return ops
 
 
+def gen_layered(rng, n_ops, universe, deferred=False):
+    """histories biased towards MERGES: a base layer is written, flushed and sunk to the bottom first (a lone
+    file only ever trivially moves, 15 times, which is what uniform histories mostly produce); then rounds of
+    2-3 overlapping flushes followed by a few compaction steps, so that level-0 files overlap each other and
+    the data below them"""
+    ops = []
+    keys = list(universe)
+    for i in range(0, len(keys), 4):
+        ops.append(("w", [(k, rng.bytes(rng.choice([1, 8, 30]))) for k in keys[i:i + 4]]))
+    ops += [("flush",), ("compact", 40)]
+    while len(ops) < n_ops:
+        for _ in range(rng.range(2, 4)):
+            for _ in range(rng.range(1, 5)):
+                k = rng.choice(keys)
+                ops.append(("w", [(k, None if rng.chance(1, 4) else rng.bytes(rng.choice([0, 3, 20, 60])))]))
+            ops.append(("flush",))
+        if deferred and rng.chance(1, 2):
+            ops += [("select",), ("w", [(rng.choice(keys), rng.bytes(4))]), ("flush",), ("select",), ("perform", rng.below(2)), ("perform", 0)]
+        else:
+            ops.append(("compact", rng.choice([1, 2, 3, 6])))
+        if rng.chance(1, 3):
+            ops.append(("reads",))
+        if rng.chance(1, 12):
+            ops.append(("compact", 30))
+    return ops
+
+
 def gen_tree_history(rng, n_ops, universe, deferred=False):
     """tree-level histories: external ingests (several versions of a key in one file, tombstones,
     strictly increasing timestamps across files), compaction steps, reopens, reads"""
@@ -261,8 +288,11 @@ def run(chk):
     for i in range(n_hist):
         optname, opts = OPTION_SETS[i % len(OPTION_SETS)]
         universe = lsmlib.UNIVERSE[:rng.choice([6, 10, 18])]
-        ops = gen_history(rng.fork(), rng.choice([80, 160, 320]), universe, deferred=(i % 3 == 2),
-                          reopens=(i % 4 != 1))     # a quarter of the histories never reopen: nothing in them can be attributed to K2
+        if i % 5 == 4:
+            ops = gen_layered(rng.fork(), rng.choice([80, 160, 320]), universe, deferred=(i % 2 == 0))
+        else:
+            ops = gen_history(rng.fork(), rng.choice([80, 160, 320]), universe, deferred=(i % 3 == 2),
+                              reopens=(i % 4 != 1))     # a quarter of the histories never reopen: nothing in them can be attributed to K2
         jobs.append((lsm_exe, mx, opts, ops, "c01h%d" % i, universe))
         names.append(("h%d" % i, optname, ops))
     # tree-level histories: data arrives through LsmTree::ingest of external ssts
